@@ -31,6 +31,9 @@ ASSUMPTIONS = [
 
 
 MUTANTS = [
+    ("normaliser promotes up to the base pixels", "AegeanTools/regions.py",
+     "        for d in range(self.maxdepth, 2, -1):",
+     "        for d in range(self.maxdepth, 0, -1):", "C12-R1"),
     ("NUNIQ list built from whatever levels the dictionary holds",
      "AegeanTools/regions.py",
      "        for d in range(1, self.maxdepth+1):\n            pd.extend(",
